@@ -152,10 +152,10 @@ def coq_entry(e):
 
 
 def coq_field(f):
-    return '(mkField %s %s %s %s [%s] %s %s %s %s)' % (
+    return '(mkField %s %s %s %s [%s] %s %s %s %s %s)' % (
         cstr(f['name']), coq_fty(f['ty']), coq_bool(f['bits_kw']), coq_bool(f['list']),
         '; '.join(coq_entry(e) for e in f['entries']), coq_opt(f.get('count')), coq_opt(f.get('stride')),
-        coq_bool('r' in f['acc']), coq_bool('w' in f['acc']))
+        coq_bool('r' in f['acc']), coq_bool('w' in f['acc']), coq_bool(bool(f.get('doc'))))
 
 
 def coq_default(df):
@@ -167,9 +167,9 @@ def coq_default(df):
 
 
 def coq_decl(d):
-    return '(mkDecl %s %d %s %s [%s])' % (
+    return '(mkDecl %s %d %s %s [%s] %s)' % (
         cstr(d['name']), d['base'], coq_default(d.get('default')), coq_bool(d.get('debug', False)),
-        ';\n    '.join(coq_field(f) for f in d['fields']))
+        ';\n    '.join(coq_field(f) for f in d['fields']), coq_bool(bool(d.get('doc'))))
 
 
 # ---- helpers over declarations ------------------------------------------------------------------
